@@ -494,6 +494,23 @@ def subscript(interp, base, idx):
             if isinstance(idx, K) and not base.unknown:
                 raise AbsRaise(T('exc', 'KeyError', idx))
             # unknown key: might be any of the entries or missing
+            if interp.guide is not None and isinstance(idx, T):
+                from .termeval import CannotEval, Raised
+                try:
+                    kv = interp.guide(idx)
+                    for k, v in zip(base.keys, base.vals):
+                        if isinstance(k, K) and k.v == kv and \
+                                type(k.v) is type(kv):
+                            interp.assumptions.append(
+                                (T('cmp', '==', idx, k), True))
+                            return v
+                    interp.assumptions.append(
+                        (T('cmp', 'in', idx, K(tuple(
+                            k.v for k in base.keys if isinstance(k, K)))),
+                         False))
+                    raise AbsRaise(T('exc', 'KeyError', idx))
+                except (CannotEval, Raised):
+                    pass
             n = interp.choose(len(base.keys) + 1)
             if n == len(base.keys):
                 if all(isinstance(k, K) for k in base.keys):
@@ -1517,6 +1534,17 @@ def b_groupby(interp, args, kwargs):
     return ListV(out)
 
 
+def b_operator_bin(sym):
+    node = {'or_': ast.BitOr, 'and_': ast.BitAnd, 'add': ast.Add,
+            'sub': ast.Sub, 'mul': ast.Mult, 'xor': ast.BitXor}[sym]()
+
+    def f(interp, args, kwargs):
+        if len(args) != 2:
+            return NotImplemented
+        return binop(interp, node, args[0], args[1])
+    return f
+
+
 def b_operator(sym):
     def f(interp, args, kwargs):
         if len(args) != 2:
@@ -1550,4 +1578,10 @@ BUILTINS = {
     'operator.lt': b_operator('lt'), 'operator.le': b_operator('le'),
     'operator.eq': b_operator('eq'), 'operator.ne': b_operator('ne'),
     'operator.gt': b_operator('gt'), 'operator.ge': b_operator('ge'),
+    'operator.or_': b_operator_bin('or_'),
+    'operator.and_': b_operator_bin('and_'),
+    'operator.add': b_operator_bin('add'),
+    'operator.sub': b_operator_bin('sub'),
+    'operator.mul': b_operator_bin('mul'),
+    'operator.xor': b_operator_bin('xor'),
 }
